@@ -26,7 +26,7 @@ RULE = ("nested enumeration, each tuple once: order 1..10 x coefficient vector o
         "with sum|phi| < 1) against a 50-digit mpmath recursion. Every rejected call (order 0/11/12, NaN coefficient "
         "at each position of each order, NaN mean, NaN ini) for both functions. Size ladder: orders 1, 2, 5, 10 x 2 coefficient "
         "vectors (dense 2^-k with mixed signs; only the highest lag = +-0.75) x 2 (mean, ini) x 3 structured series (dyadic "
-        "with NaN in the first steps / middle / end; integer-valued; values with 34 significant bits) x every length of "
+        "with NaN in the first steps / middle / end; integer-valued; values with pseudo-random low-order bits that a float32 intermediate would lose) x every length of "
         "7,8,9,...,1023,1024,1025 (thorough: ..4097 and 10001), the same four calls against the same Fraction recursion "
         "(mpmath beyond 4097). Layout variants (every ladder tuple, the first tuple of every grid/long unit): the same "
         "values as float32 / int64 (when exactly representable) / strided / negative-stride / 2-D column / read-only "
@@ -510,7 +510,8 @@ def ladder_series(kind, L, order):
     """structured series of length L (>= 7):
     dy   : dyadic ramp 0.5, 0, 2, -1, ... with NaN inside the first `order` steps, in the middle and at the end
     int  : integer-valued, NaN-free (1, 0, 4, -2, ...)
-    fine : ramp + (i mod 5) * 2^-33, NaN-free (34 significant bits: exact in float64 and in Fractions, not in float32)"""
+    fine : ramp + k_i * 2^-36 with k_i = (40503 i mod 65536) + 1, NaN-free: exact in float64 and in Fractions, while a
+           float32 intermediate changes the values by up to 1e-7 (well above the tolerance)"""
     b = base_series(L, "ramp")
     if kind == "dy":
         for i in (min(order - 1, L - 3), L // 2, L - 1):
@@ -519,7 +520,7 @@ def ladder_series(kind, L, order):
     if kind == "int":
         return [2.0 * v for v in b]
     if kind == "fine":
-        return [v + (i % 5) * 2.0 ** -33 for i, v in enumerate(b)]
+        return [v + ((i * 40503) % 65536 + 1) * 2.0 ** -36 for i, v in enumerate(b)]
     raise ValueError(kind)
 
 
@@ -620,10 +621,11 @@ def check_layouts(ctx, AR, phi, mean, ini, x):
                     d[np.isnan(base) & np.isnan(np.asarray(r, dtype=np.float64))] = 0.0
                     bad = int(np.argmax(d > tol))
                 ctx.violation("%s:layout=%s" % (fname, name), case,
-                              "armodel_%s with the %s given as %s: %s, the float64 C-contiguous call gives %s" % (
-                                  fname, "parameters" if name.startswith("params") else "series", name,
-                                  "shape %s vs %s" % (r.shape, base.shape) if bad is None else
-                                  "[%d] = %r vs %r" % (bad, float(r[bad]), float(base[bad])), kwargs_of(mean, ini)),
+                              "armodel_%s(phi=%s, n=%d, %s) with the %s given as %s: %s" % (
+                                  fname, list(phi), len(x), kwargs_of(mean, ini),
+                                  "parameters" if name.startswith("params") else "series", name,
+                                  "shape %s, the float64 C-contiguous call gives shape %s" % (r.shape, base.shape) if bad is None else
+                                  "[%d] = %r, the float64 C-contiguous call gives %r" % (bad, float(r[bad]), float(base[bad]))),
                               observed=[enc(v) for v in np.asarray(r, dtype=np.float64).ravel()[:50]],
                               expected=[enc(v) for v in base.ravel()[:50]])
 
